@@ -563,7 +563,7 @@ fn from_states_cases<E: Residual>(eos: &Arc<E>, t: Temperature, rho_scale: f64, 
         let r1 = rho_scale * rng.log_range(1e-4, 1.0);
         let r2 = match i % 4 {
             0 => r1,                                   // equal densities (critical point of a diagram)
-            1 => r1 * (1.0 + f64::EPSILON),            // one ulp apart
+            1 => r1 * (1.0 + 1e-12),                   // nearly equal (the code compares SI values: the unit conversion may merge 1-ulp neighbours)
             _ => rho_scale * rng.log_range(1e-4, 1.0),
         };
         let (s1, s2) = match (State::new_pure(eos, t, Density::from_reduced(r1)), State::new_pure(eos, t * 1.0000001, Density::from_reduced(r2))) {
